@@ -56,6 +56,8 @@ EXCLUDE = {
     "zone": {"reader", "writer", "set_max_versions", "set_pruning_policy"},
 }
 MAX_COMBOS = 400
+MAX_NOOPS = 24      # no-op variants applied per (object, method)
+WITNESSED = {}      # kind -> method names seen to change a twin (reset per snapshot)
 
 
 # ----------------------------------------------------------------------------- projections
@@ -222,14 +224,30 @@ def pools(env, kind, target):
             return dns.rdataset.from_rdata(300, rdish["rd_old"]())
         return E.rds_old()
 
+    def rds_empty():
+        if isinstance(target, dns.rdataset.Rdataset):
+            return dns.rdataset.Rdataset(target.rdclass, target.rdtype, target.covers, target.ttl)
+        return dns.rdataset.Rdataset(IN, A, NONE, 300)
+
+    def rds_equal():
+        if isinstance(target, dns.rdataset.Rdataset):
+            r = rds_empty()
+            for rd in target:
+                r.add(rd, target.ttl)
+            return r
+        return E.rds_old()
+
     setish = {"rds_new": rds_same_type_new, "rds_old": rds_same_type_old,
-              "list_rd_new": lambda: [rdish.get("rd_new", rdish["rd_old"])()]}
+              "list_rd_new": lambda: [rdish.get("rd_new", rdish["rd_old"])()],
+              # arguments that request no change
+              "rds_empty": rds_empty, "rds_equal": rds_equal, "empty_list": lambda: []}
+    cur_ttl = int(target.ttl) if isinstance(target, dns.rdataset.Rdataset) else 300
     P = {
         "rdclass": {"IN": lambda: IN},
         "rdtype": {"A": lambda: A, "TXT": lambda: TXT, "NS": lambda: NS, "SOA": lambda: SOA},
         "covers": {"NONE": lambda: NONE},
         "create": {"True": lambda: True},
-        "ttl": {"77": lambda: 77},
+        "ttl": {"77": lambda: 77, "same": lambda: cur_ttl, "larger": lambda: cur_ttl + 100},
         "rd": rdish, "item": rdish,
         "other": setish, "items": setish,
         "replacement": {"rds_new": E.rds_new, "rds_txt": E.rds_txt},
@@ -270,7 +288,8 @@ def pools(env, kind, target):
     elif kind == "rdsitems":
         P.update({"key": rdish, "value": {"None": lambda: None}, "default": {"None": lambda: None}})
     elif kind == "nodes":
-        maps = {"map_absent": lambda: {E.absent: E.node_new()}, "pairs_absent": lambda: [(E.absent, E.node_new())]}
+        maps = {"map_absent": lambda: {E.absent: E.node_new()}, "pairs_absent": lambda: [(E.absent, E.node_new())],
+                "empty_map": lambda: {}}
         P.update({"key": keyish, "value": {"node_new": E.node_new}, "default": {"node_new": E.node_new}, "other": maps})
         if isinstance(target, dns.btree.BTree):
             # the element objects are shared between a frozen tree and its copy-on-write clone
@@ -281,8 +300,9 @@ def pools(env, kind, target):
         dk = {"absent": lambda: E.absent}
         if members:
             dk["member"] = lambda: members[0]
-        sets = {"list_absent": lambda: [E.absent], "set_member": lambda: set(members[:1]), "set_absent": lambda: {E.absent},
-                "set_mixed": lambda: set(members[:1]) | {E.absent}}
+        sets = {"list_absent": lambda: [E.absent], "set_absent": lambda: {E.absent}, "empty_set": lambda: set()}
+        if members:
+            sets.update({"set_member": lambda: set(members[:1]), "set_mixed": lambda: set(members[:1]) | {E.absent}})
         generic.update(dk)
         generic.update(sets)
         P.update({"key": dk, "value": dk, "x": dk, "other": sets, "it": sets})
@@ -298,11 +318,25 @@ def pools(env, kind, target):
     return P
 
 
+class _Same:
+    """argument factory that needs the receiver: the CURRENT value of one of its attributes"""
+
+    def __init__(self, attr):
+        self.attr = attr
+
+    def __call__(self, recv):
+        return getattr(recv, self.attr)
+
+
+def build(mks, recv):
+    return [mk(recv) if isinstance(mk, _Same) else mk() for mk in mks]
+
+
 def arg_candidates(fn, P, attr_names, name):
     """yield (labels, factory-tuple) for the callable fn"""
     if name == "__setattr__":
         for a in attr_names:
-            for lab, mk in (("77", lambda: 77), ("empty-tuple", lambda: ()), ("None", lambda: None)):
+            for lab, mk in (("77", lambda: 77), ("empty-tuple", lambda: ()), ("None", lambda: None), ("same", _Same(a))):
                 yield ("attr:" + a, lab), (lambda a=a: a, mk)
         return
     if name == "__delattr__":
@@ -382,13 +416,20 @@ def probe_object(ev, kind, label, obj, make_twin, proj, env, world, catalogue_pr
     available = sorted(n for n in names if hasattr(twin0, n))
     ncand = 0
     nwit = 0
+    nnoop = 0
+    seen_kind = WITNESSED.setdefault(kind, set())
     for name in sorted(names):
         fn = getattr(twin0, name, None)
         if fn is None:
             fn = getattr(obj, name, None)
         if fn is None:
             continue
-        per_method = 0
+        try:
+            has_create = "create" in inspect.signature(fn).parameters
+        except (TypeError, ValueError):
+            has_create = False
+        noops = []
+        witnessed = False
         for labels, mks in arg_candidates(fn, P, attrs, name):
             ncand += 1
             tw = make_twin()
@@ -396,24 +437,44 @@ def probe_object(ev, kind, label, obj, make_twin, proj, env, world, catalogue_pr
             if tfn is None:
                 continue
             tb = safe_digest(proj, tw)
+            traised = False
             try:
-                tfn(*[mk() for mk in mks])
+                tfn(*build(mks, tw))
             except BaseException:  # noqa: BLE001
-                pass
+                traised = True
             if safe_digest(proj, tw) == tb:
-                continue  # trivial on the twin: proves nothing
+                # nothing changed on the twin.  If the twin ACCEPTED the call (returned), this is
+                # a mutator called with arguments that request no change; kept for the "raises"
+                # clause only.  (create-style methods are reads unless create=True is passed.)
+                if not traised and not (has_create and "True" not in labels):
+                    noops.append((labels, mks))
+                continue
             # a witnessed mutator: apply it to the real object
             nwit += 1
-            per_method += 1
+            witnessed = True
             try:
                 ofn = getattr(obj, name)
-                ofn(*[mk() for mk in mks])
+                ofn(*build(mks, obj))
                 res, exc = "ok", ""
             except BaseException as e:  # noqa: BLE001
                 res, exc = "err", type(e).__name__
             ev.append({"op": "call", "kind": kind, "m": name, "args": "(" + ",".join(labels) + ")", "twin": True,
                        "res": res, "exc": exc, "after": safe_digest(proj, obj), "world": world()})
-    ev.append({"op": "done", "kind": kind, "available": available, "ncand": ncand, "nwit": nwit})
+        if witnessed:
+            seen_kind.add(name)
+        if name in seen_kind:
+            # the method is a mutator of this kind of object: its no-op variants must be refused too
+            for labels, mks in noops[:MAX_NOOPS]:
+                nnoop += 1
+                try:
+                    ofn = getattr(obj, name)
+                    ofn(*build(mks, obj))
+                    res, exc = "ok", ""
+                except BaseException as e:  # noqa: BLE001
+                    res, exc = "err", type(e).__name__
+                ev.append({"op": "noop", "kind": kind, "m": name, "args": "(" + ",".join(labels) + ")", "cls": type(obj).__name__,
+                           "res": res, "exc": exc, "after": safe_digest(proj, obj), "world": world()})
+    ev.append({"op": "done", "kind": kind, "available": available, "ncand": ncand, "nwit": nwit, "nnoop": nnoop})
 
 
 # ----------------------------------------------------------------------------- one snapshot
@@ -530,6 +591,7 @@ def probe(zclass, relativize, fresh, which, tid):
     # the zone's own (non-transactional) API, reached as txn.manager / version.zone
     targets.append(("zone", "txn.manager", txn.manager, lambda: twin_plainzone(relativize, content), p_zone_any))
     trace["objects"] = len(targets)
+    WITNESSED.clear()
     for kind, label, obj, mk, proj in targets:
         try:
             probe_object(ev, kind, label, obj, mk, proj, env, world)
